@@ -164,7 +164,7 @@ def form_properties(ctx, tag, inp, dA, df, loc):
     ctx.check("C03.meanfield", tag, meanfield, loc)
 
 
-def skew_form(dA, Ag):
+def skew_form(dA, Ag, prefix="A["):
     """dA (3x3) == Ag · S with one S for all rows and S + S^T == 0 (S read off as shallow coefficients)."""
     S_ref = None
     for p in range(3):
@@ -172,7 +172,7 @@ def skew_form(dA, Ag):
         for q in range(3):
             cellv = lift(dA[p, q])
             for _ in range(3):
-                if not cellv.t or any(a.kind == "sym" and str(a.args[0]).startswith("A[") for a in alg.atoms_of(cellv)):
+                if not cellv.t or any(a.kind == "sym" and str(a.args[0]).startswith(prefix) for a in alg.atoms_of(cellv)):
                     break
                 cellv, ch = alg.unfold_once(cellv)
                 if not ch:
